@@ -135,6 +135,12 @@ def accept_numeric(observed: Any, exact: Fraction, target_type: str,
         # allowance is zero whenever the exact value has a small denominator
         noise = Fraction(max(1.0, mag, abs(float(exact)))) * Fraction(1, 10**9) \
             if _has_float_noise(exact) else Fraction(0)
+        top = max(mag, abs(float(exact)))
+        if top >= 2.0 ** 40:
+            # an implementation that computes in doubles is only exact to a few units in the
+            # last place of its largest intermediate; near 2^53 that is a whole unit (below
+            # 2^40 the allowance would be < 0.001 and is not granted at all)
+            noise += Fraction(top) * Fraction(4, 2 ** 52)
         return abs(Fraction(observed) - exact) <= Fraction(1, 2) + noise
     try:
         rd = float(exact)
@@ -283,7 +289,8 @@ class Scale:
         dm = sum((abs(c) * ax**k for k, c in enumerate(self.den)), Fraction(0))
         if d == 0:
             return math.inf
-        return float(n / abs(d) * (dm / abs(d)))
+        # (the numerator sum itself is an intermediate of every implementation, too)
+        return float(max(n, n / abs(d) * (dm / abs(d))))
 
     @property
     def affine(self) -> bool:
@@ -644,6 +651,18 @@ class Compu:
             if not self.has_p2i or len(self.scales) != 1 or len(self.inv_scales) != 1:
                 return False
             f, g = self.scales[0], self.inv_scales[0]
+            if f.num is not None and g.num is not None and len(f.num) == 2 and len(f.den) == 2 \
+                    and len(g.num) == 2 and len(g.den) == 2 and not self.int_physical:
+                # Moebius map y = (n0 + n1 x)/(d0 + d1 x): injective wherever it is defined if
+                # its determinant does not vanish; its inverse is x = (n0 - d0 y)/(-n1 + d1 y),
+                # and g is that map iff its coefficients are proportional to it
+                n0, n1, d0, d1 = f.num[0], f.num[1], f.den[0], f.den[1]
+                if n1 * d0 - n0 * d1 == 0:
+                    return False
+                want = [n0, -d0, -n1, d1]
+                have = [g.num[0], g.num[1], g.den[0], g.den[1]]
+                k = next((h / w for h, w in zip(have, want) if w != 0), None)
+                return k is not None and k != 0 and all(h == k * w for h, w in zip(have, want))
             if not (f.affine and g.affine) or f.n1 == 0 or g.n1 == 0:
                 return False
             if self.int_physical and abs(f.slope) < 1:
